@@ -8,6 +8,7 @@ package main
 
 import (
 	"encoding/json"
+	"fmt"
 	"os"
 	"path/filepath"
 	"sort"
@@ -42,6 +43,20 @@ func runReplay(ctx *hx.Ctx, path string) {
 }
 
 func main() {
+	if os.Getenv("VERIF_F4REAL_ONLY") != "" {
+		res, err := bftsim.F4Real()
+		if res != nil {
+			for _, l := range res.Log {
+				fmt.Println(l)
+			}
+			fmt.Printf("conflict=%v %s(%s) vs %s(%s)\n", res.Conflict, res.A, res.NodeA, res.B, res.NodeB)
+		}
+		if err != nil {
+			fmt.Println("F4Real:", err)
+			os.Exit(1)
+		}
+		os.Exit(0)
+	}
 	ctx := hx.Init("C03")
 	r := hx.NewRand(ctx.Seed)
 	if ctx.Replay != "" {
@@ -54,6 +69,19 @@ func main() {
 		for _, f := range files {
 			runReplay(ctx, f)
 			ctx.Cov.Count("corpus-files")
+		}
+	}
+	// F4 at node level: real packer / PoA scheduler (slots, activity, scores), real consensus validation at every
+	// delivery, real engines; honest validators only ever propose on their own best block (checked, never forced)
+	if res, err := bftsim.F4Real(); err != nil {
+		ctx.Cov.Count("f4-node-level:not-reproduced")
+		fmt.Fprintf(os.Stderr, "F4 node-level replay did not run to its end: %v\n", err)
+	} else {
+		ctx.Cov.Count("f4-node-level:run")
+		if res.Conflict && res.HonestOnBest {
+			ctx.Violation(bftsim.F4Class, "two honest nodes finalize conflicting checkpoints ("+res.A+" at "+res.NodeA+", "+res.B+" at "+res.NodeB+
+				") with one Byzantine validator of four; all blocks from the real packer/scheduler, all deliveries through consensus.Process, "+
+				"honest proposals on the proposer's own best block with its own ShouldVote", map[string]any{"kind": "f4-node-level", "log": res.Log}, true)
 		}
 	}
 	var cases []*bftsim.Case
